@@ -8,13 +8,13 @@ import (
 
 var l2Components = map[string]string{
 	"x/opchild keeper, msg server, querier, genesis, Begin/EndBlocker": "real",
-	"x/auth, x/bank keepers and bank msg server (hook target)":          "real (bank seen by opchild and by hook messages through a fault-injecting wrapper)",
-	"SDK signature decorators on hook payloads":                         "real (real secp256k1 signatures)",
-	"connect x/oracle keeper":                                           "real",
-	"baseapp (runTx, gas, panic recovery, commit)":                      "real",
-	"consensus engine":                                                  "stub: single proposer; validator-set half is the real cometbft ValidatorSet.UpdateWithChangeSet",
-	"outer tx signature verification":                                   "stub: signer = declared signer field",
-	"L1 + executor":                                                     "stub: fabricated deposit stream (fixed content per sequence) relayed by simulated executors",
+	"x/auth, x/bank keepers and bank msg server (hook target)":         "real (bank seen by opchild and by hook messages through a fault-injecting wrapper)",
+	"SDK signature decorators on hook payloads":                        "real (real secp256k1 signatures)",
+	"connect x/oracle keeper":                                          "real",
+	"baseapp (runTx, gas, panic recovery, commit)":                     "real",
+	"consensus engine":                "stub: single proposer; validator-set half is the real cometbft ValidatorSet.UpdateWithChangeSet",
+	"outer tx signature verification": "stub: signer = declared signer field",
+	"L1 + executor":                   "stub: fabricated deposit stream (fixed content per sequence) relayed by simulated executors",
 }
 
 func runL2(p *l2Profile) func(r *core.Run) *core.Violation {
@@ -42,7 +42,7 @@ func init() {
 		W:       map[string]int{"relay": 60, "relaybatch": 12, "withdraw": 6, "send": 8, "params": 3, "bridgeinfo": 1},
 		NonTriv: func(w *l2World) bool { return w.m.NextL1Seq >= 4 && w.r.Probes["deposit.noop-replay"] >= 1 }}
 	core.Register(&core.Scenario{ID: "C06", Level: "exploration", Run: runL2(c06), Components: l2Components, Assumptions: l2Assume,
-		Rule: "seeded relay schedules over a deposit stream: 1-3 authorised executors plus an outsider offer every sequence any number of times, in any order, ahead of time and long after processing, singly and batched in one tx, interleaved with transfers, withdrawals and executor-list rotations, with crash between FinalizeBlock and Commit; oracle: SUCCESS results are exactly 1,2,3,..., stale => NOOP with no event and no state change, ahead => error, NextL1Sequence = 1 + processed, ledger and supply equality; non-trivial = >=3 deposits processed and >=1 stale replay",
+		Rule:      "seeded relay schedules over a deposit stream: 1-3 authorised executors plus an outsider offer every sequence any number of times, in any order, ahead of time and long after processing, singly and batched in one tx, interleaved with transfers, withdrawals and executor-list rotations, with crash between FinalizeBlock and Commit; oracle: SUCCESS results are exactly 1,2,3,..., stale => NOOP with no event and no state change, ahead => error, NextL1Sequence = 1 + processed, ledger and supply equality; non-trivial = >=3 deposits processed and >=1 stale replay",
 		QuickRuns: 1500, QuickSecs: 75, ThoroughRuns: 40000, ThoroughSecs: 700,
 		RequiredProbes: []string{"deposit.noop-replay", "reject.l2deposit.sequence-ahead", "reject.auth.finalize-deposit"}})
 
@@ -50,15 +50,17 @@ func init() {
 		W:       map[string]int{"relay": 40, "relaybatch": 4, "withdraw": 35, "send": 15, "params": 2},
 		NonTriv: func(w *l2World) bool { return w.succ["withdraw"] >= 1 && w.m.NextL1Seq >= 3 }}
 	core.Register(&core.Scenario{ID: "C09", Level: "exploration", Run: runL2(c09), Components: l2Components, Assumptions: l2Assume,
-		Rule: "seeded histories of credited and refunded deposits, transfers and withdrawal attempts by any account (below / at / above balance; bridged, native and unknown denoms; a later deposit naming another base denom for a known L2 denom) with crash/restart and dependency faults on burn/send; oracle: supply(d) = credited - withdrawn after every block, exact debit of the signer, one gap-free L2 sequence shared by user and refund withdrawals, immutable denom mapping; non-trivial = >=1 successful withdrawal and >=2 processed deposits",
+		Rule:      "seeded histories of credited and refunded deposits, transfers and withdrawal attempts by any account (below / at / above balance; bridged, native and unknown denoms; a later deposit naming another base denom for a known L2 denom) with crash/restart and dependency faults on burn/send; oracle: supply(d) = credited - withdrawn after every block, exact debit of the signer, one gap-free L2 sequence shared by user and refund withdrawals, immutable denom mapping; non-trivial = >=1 successful withdrawal and >=2 processed deposits",
 		QuickRuns: 2500, QuickSecs: 75, ThoroughRuns: 40000, ThoroughSecs: 700,
 		RequiredProbes: []string{"reject.withdraw.non-l1-token", "reject.withdraw.insufficient", "deposit.refunded"}})
 
 	c13 := &l2Profile{Prop: "C13", Reimport: 2, Blocks: [2]int{12, 60}, MaxTx: 5, Crash: 10,
-		W:       map[string]int{"addval": 35, "rmval": 30, "params": 12, "exec": 10, "relay": 4, "send": 2},
-		NonTriv: func(w *l2World) bool { return w.succ["addval"] >= 1 && w.succ["rmval"] >= 1 && w.r.Probes["validators.updates-returned"] >= 2 }}
+		W: map[string]int{"addval": 35, "rmval": 30, "params": 12, "exec": 10, "relay": 4, "send": 2},
+		NonTriv: func(w *l2World) bool {
+			return w.succ["addval"] >= 1 && w.succ["rmval"] >= 1 && w.r.Probes["validators.updates-returned"] >= 2
+		}}
 	core.Register(&core.Scenario{ID: "C13", Level: "exploration", Run: runL2(c13), Components: l2Components, Assumptions: l2Assume,
-		Rule: "seeded histories of add / remove validator, max-validators and retention changes (directly and batched through MsgExecuteMessages), several per block, add-then-remove, remove-then-re-add, same key under another operator, from random genesis sets, with crash between FinalizeBlock and Commit and block replay; every returned update batch is fed to the real CometBFT ValidatorSet; oracle: engine set = positive-power validators in state = last powers after every block, index bijection, cap, purge, historical info; non-trivial = >=1 add, >=1 remove and >=2 non-empty update batches",
+		Rule:      "seeded histories of add / remove validator, max-validators and retention changes (directly and batched through MsgExecuteMessages), several per block, add-then-remove, remove-then-re-add, same key under another operator, from random genesis sets, with crash between FinalizeBlock and Commit and block replay; every returned update batch is fed to the real CometBFT ValidatorSet; oracle: engine set = positive-power validators in state = last powers after every block, index bijection, cap, purge, historical info; non-trivial = >=1 add, >=1 remove and >=2 non-empty update batches",
 		QuickRuns: 2500, QuickSecs: 75, ThoroughRuns: 40000, ThoroughSecs: 700,
 		RequiredProbes: []string{"reject.addval.cap", "reject.addval.key-exists", "validators.updates-returned"}})
 
@@ -66,7 +68,7 @@ func init() {
 		W:       map[string]int{"addval": 25, "rmval": 15, "params": 12, "relay": 10, "send": 2},
 		NonTriv: func(w *l2World) bool { return w.r.Probes["plan.applied"] >= 1 }}
 	core.Register(&core.Scenario{ID: "C14", Level: "exploration", Run: runL2(c14), Components: l2Components, Assumptions: append(append([]string{}, l2Assume...), "executor-change plans live in keeper memory; the harness re-registers them after every restart as an application constructor would"),
-		Rule: "as C13 plus executor-change plans over {fresh / known operator} x {fresh / used consensus key} x executor lists and malformed plans, registered at heights before, at and after other validator operations and under every max-validator setting, with node restarts between registration and the plan height; oracle: at the end of the plan block the engine set is exactly the plan's validator, state agrees, executors are the plan's list and block processing does not fail; malformed registrations fail without side effects; non-trivial = >=1 plan applied",
+		Rule:      "as C13 plus executor-change plans over {fresh / known operator} x {fresh / used consensus key} x executor lists and malformed plans, registered at heights before, at and after other validator operations and under every max-validator setting, with node restarts between registration and the plan height; oracle: at the end of the plan block the engine set is exactly the plan's validator, state agrees, executors are the plan's list and block processing does not fail; malformed registrations fail without side effects; non-trivial = >=1 plan applied",
 		QuickRuns: 2500, QuickSecs: 75, ThoroughRuns: 40000, ThoroughSecs: 700,
 		RequiredProbes: []string{"plan.applied", "plan.malformed-rejected"}})
 }
@@ -76,8 +78,8 @@ func init() {
 		W: map[string]int{"relay": 50, "relaybatch": 5, "withdraw": 10, "send": 15, "params": 6}}
 	core.Register(&core.Scenario{ID: "C07", Level: "fault_enumeration", Run: runC07(c07), Components: l2Components,
 		Assumptions: []string{"outer tx signatures are not verified; the signer is the declared signer field", "hook payloads carry real secp256k1 signatures checked by the real SDK decorators", "module accounts exist from genesis (DESIGN: observations outside the listed properties)"},
-		Rule: "per run: a seeded warm-up history, then 1-3 deposits drawn from recipient {valid, fresh, malformed, blocked module account} x amount {0, typical, 2^63, 2^64-1, 2^64} x payload {none, garbage, well-signed succeeding, well-signed failing at message k, bad signature, future sequence, 150-transfer gas hog, unroutable message}; each deposit is executed fault-free on a fork of the world while the calls through the bank / account-keeper seams and the hook-target message server are recorded, then re-executed from the same state once per (call index x {error, panic}); an evaluation is one faulted execution whose fault fired; distinct = (deposit class, call site, fault kind); non-trivial = at least 2 fault variants executed",
-		QuickRuns: 1000, QuickSecs: 75, ThoroughRuns: 20000, ThoroughSecs: 800,
+		Rule:        "per run: a seeded warm-up history, then 1-3 deposits drawn from recipient {valid, fresh, malformed, blocked module account} x amount {0, typical, 2^63, 2^64-1, 2^64} x payload {none, garbage, well-signed succeeding, well-signed failing at message k, bad signature, future sequence, 150-transfer gas hog, unroutable message}; each deposit is executed fault-free on a fork of the world while the calls through the bank / account-keeper seams and the hook-target message server are recorded, then re-executed from the same state once per (call index x {error, panic}); an evaluation is one faulted execution whose fault fired; distinct = (deposit class, call site, fault kind); non-trivial = at least 2 fault variants executed",
+		QuickRuns:   1000, QuickSecs: 75, ThoroughRuns: 20000, ThoroughSecs: 800,
 		RequiredProbes: []string{"c07.site.contained.MintCoins.err", "c07.site.contained.MintCoins.panic", "c07.site.contained.SendCoinsFromModuleToAccount.panic", "c07.site.contained.MsgSend.panic", "c07.site.outside.BurnCoins.err", "c07.gas-bound-checked"}})
 }
 
@@ -107,8 +109,8 @@ func init() {
 			return l2run(r)
 		},
 		Assumptions: []string{"the authenticated signer of a message is its annotated signer field (no outer signature verification)", "single block proposer", "MsgUpdateOracle's executor / oracle-flag guard is exercised by the C15 scenario"},
-		Rule: "every permissioned message type of both modules is sent by signers drawn from current and past role holders, governance / module authority, the admin and strangers, in states reached by role rotations, parameter and executor-list changes (same block and across blocks), including MsgExecuteMessages batches mixing authority-signed and foreign-signed inner messages with failing tails and MsgSetBridgeInfo re-pointing attempts; oracle: access table written from the property text (soundness and, for valid arguments, completeness), rejected messages change nothing, batches are all-or-nothing; non-trivial = >=2 successful role / parameter changes",
-		QuickRuns: 2500, QuickSecs: 75, ThoroughRuns: 50000, ThoroughSecs: 700,
+		Rule:        "every permissioned message type of both modules is sent by signers drawn from current and past role holders, governance / module authority, the admin and strangers, in states reached by role rotations, parameter and executor-list changes (same block and across blocks), including MsgExecuteMessages batches mixing authority-signed and foreign-signed inner messages with failing tails and MsgSetBridgeInfo re-pointing attempts; oracle: access table written from the property text (soundness and, for valid arguments, completeness), rejected messages change nothing, batches are all-or-nothing; non-trivial = >=2 successful role / parameter changes",
+		QuickRuns:   2500, QuickSecs: 75, ThoroughRuns: 50000, ThoroughSecs: 700,
 		RequiredProbes: []string{"reject.auth.propose", "reject.auth.delete", "reject.auth.update-proposer", "reject.auth.update-challenger", "reject.auth.update-batch-info", "reject.auth.update-metadata", "reject.auth.update-oracle-config", "reject.auth.update-params",
 			"reject.auth.finalize-deposit", "reject.auth.set-bridge-info", "reject.auth.execute-messages", "reject.exec.inner-signer", "reject.bridgeinfo.repoint", "reject.auth.add-validator", "reject.auth.spend-fee-pool"}})
 }
@@ -124,8 +126,8 @@ func init() {
 	comp["IBC light-client update path"] = "stub: block-level input applied in PreBlock through Keeper.UpdateHostValidatorSet"
 	core.Register(&core.Scenario{ID: "C15", Level: "exploration", Run: runC15, Components: comp,
 		Assumptions: []string{"the IBC client update path is represented by a block-level input calling Keeper.UpdateHostValidatorSet", "outer tx signatures are not verified; vote-extension signatures are real ed25519 signatures"},
-		Rule: "histories interleaving validator-set refreshes (higher / equal / lower height, configured / foreign / empty client id), admin traffic (oracle flag, executor rotation) and oracle updates assembled by a Byzantine relayer from really signed vote extensions: dropped votes, signatures bound to another chain id / height / round, forged / truncated / swapped signatures, absent and nil votes with or without extensions, duplicated entries with attacker prices, repeated votes, unknown validators with huge claimed power, stale timestamps, heights older than the recorded set, replays of earlier payloads, non-executor senders; oracle: independent recount (2/3 of the recorded power among distinct validators with valid signatures per changed pair, new price within the signed votes, strictly increasing timestamps, failed updates change nothing, honest full-quorum updates apply); non-trivial = >=1 accepted and >=1 rejected update",
-		QuickRuns: 2000, QuickSecs: 75, ThoroughRuns: 30000, ThoroughSecs: 700,
+		Rule:        "histories interleaving validator-set refreshes (higher / equal / lower height, configured / foreign / empty client id), admin traffic (oracle flag, executor rotation) and oracle updates assembled by a Byzantine relayer from really signed vote extensions: dropped votes, signatures bound to another chain id / height / round, forged / truncated / swapped signatures, absent and nil votes with or without extensions, duplicated entries with attacker prices, repeated votes, unknown validators with huge claimed power, stale timestamps, heights older than the recorded set, replays of earlier payloads, non-executor senders; oracle: independent recount (2/3 of the recorded power among distinct validators with valid signatures per changed pair, new price within the signed votes, strictly increasing timestamps, failed updates change nothing, honest full-quorum updates apply); non-trivial = >=1 accepted and >=1 rejected update",
+		QuickRuns:   2000, QuickSecs: 75, ThoroughRuns: 30000, ThoroughSecs: 700,
 		RequiredProbes: []string{"oracle.accepted", "oracle.rejected", "oracle.honest-update-applied", "oracle.prices-changed"}})
 }
 
@@ -139,7 +141,7 @@ func init() {
 	comp["mempool"] = "stub: per-node list; admission and re-admission through the real CheckTx (New / Recheck)"
 	core.Register(&core.Scenario{ID: "C20", Level: "exploration", Run: runC20, Components: comp,
 		Assumptions: []string{"2-3 L2 nodes share one genesis and execute the same blocks; each has its own node-local min-gas-prices", "fee grants are not wired (granter only matters to the free-lane matcher)", "the degenerate gas = 0 corner is left unconstrained"},
-		Rule: "transaction life-cycle on 2-3 L2 nodes with different node-local min gas prices while the chain's MinGasPrices / FeeWhitelist change through admin messages: random gas limits, fee coin sets built just below / at / above ceil(gas x max(node, chain)) per denom plus unpriced denoms, relay transactions made of stale / fresh / mixed / ahead / unauthorised deposit finalisations, CheckTx(New), ReCheckTx of every mempool after every block, simulate, and direct proposal of unchecked transactions; lane match handlers on 12 message-list shapes x payer / granter / whitelist combinations; oracle: fee arithmetic in exact rationals, shape and whitelist predicates, a sequential model of the check-state deposit counter; non-trivial = >=1 rejection below the floor and >=1 admission at the floor",
-		QuickRuns: 2000, QuickSecs: 75, ThoroughRuns: 30000, ThoroughSecs: 700,
+		Rule:        "transaction life-cycle on 2-3 L2 nodes with different node-local min gas prices while the chain's MinGasPrices / FeeWhitelist change through admin messages: random gas limits, fee coin sets built just below / at / above ceil(gas x max(node, chain)) per denom plus unpriced denoms, relay transactions made of stale / fresh / mixed / ahead / unauthorised deposit finalisations, CheckTx(New), ReCheckTx of every mempool after every block, simulate, and direct proposal of unchecked transactions; lane match handlers on 12 message-list shapes x payer / granter / whitelist combinations; oracle: fee arithmetic in exact rationals, shape and whitelist predicates, a sequential model of the check-state deposit counter; non-trivial = >=1 rejection below the floor and >=1 admission at the floor",
+		QuickRuns:   2000, QuickSecs: 75, ThoroughRuns: 30000, ThoroughSecs: 700,
 		RequiredProbes: []string{"fee.rejected-below-floor", "fee.admitted-at-floor", "redundancy.stale-only-rejected", "redundancy.fresh-admitted", "redundancy.simulate-not-filtered", "lane.checked", "lane.free-matched", "deliver.unchecked-txs-proposed"}})
 }
